@@ -8,7 +8,8 @@
      iif <ty0> | <ty1> | <ty2>      ->  ok <type> | rej
      call <paramTy> | <argTy> | <0|1 = argument is a modifiable lvalue>   ->  (ok | rej) pe=<E(arg,param)E(param,arg)E(arg,unwrapped param)E(unwrapped param,arg)>
      eqv <tyA> | <tyB>              ->  8 bits: E(A,B) E(B,A) E(&A,B) E(A,&B) E(const A,B) E(A,const B) E(&A,&B) E(B,&A)
-     acc <ty>                       ->  g=<0|1> i=<0|1>     (accepted as guard / as invariant)  -/
+     acc <ty>                       ->  g=<0|1> i=<0|1>     (accepted as guard / as invariant)
+     exceptions                     ->  result-kind pairs k1/k2 on which inline-if is not symmetric (primitive branches), or `none`  -/
 import UtapModel.Gen.TypeClauses
 open UtapModel.Types UtapModel.TypeClauses
 
@@ -75,6 +76,13 @@ def stepLine (line : String) : String :=
     match tyOf rest with
     | some t => "g=" ++ bit (guardAccepted t) ++ " i=" ++ bit (invariantAccepted t)
     | none => "bad-op"
+  | ["exceptions"] =>
+    -- the exact exception set of the inline-if result kind (same computation as Lemmas/C14 `exactKindExceptions`)
+    let ex := TK.all.flatMap fun ka => (TK.all.filterMap fun kb =>
+      match (inlineIf (.prim .BOOL) (.prim ka) (.prim kb)).map Ty.term, (inlineIf (.prim .BOOL) (.prim kb) (.prim ka)).map Ty.term with
+      | some r1, some r2 => if r1 != r2 then some (r1.name ++ "/" ++ r2.name) else none
+      | _, _ => none)
+    if ex.isEmpty then "none" else " ".intercalate ex.eraseDups
   | _ => "bad-op"
 
 partial def loop (h : IO.FS.Stream) (out : IO.FS.Stream) : IO Unit := do
